@@ -457,6 +457,33 @@ def run(ctx):
         dflt = rng.choice([{'SKIP': True}, {'SKIP': False}, {'IGNORE_WANT': True}])
         start = (bool(dflt.get('SKIP', False)), ())
         cases.append(dict(doc=render(events, SHAPES), expect=spec_trace(events, start), events=events, default=dflt))
+    # ... as the command line gives them: '--options=+SKIP,+IGNORE_WHITESPACE' is a LIST; the default options of a run are what
+    # DoctestConfig._populate_from_cli makes of the text (every option of the list, in any order and spelling)
+    from xdoctest import doctest_example
+    NS = {'offset_linenos': False, 'colored': False, 'reportchoice': 'udiff', 'global_exec': None, 'supress_import_errors': False, 'verbose': 0}
+    names = ['SKIP', 'IGNORE_WANT', 'IGNORE_WHITESPACE', 'ELLIPSIS', 'NORMALIZE_WHITESPACE']
+    nopt = 0
+    for n in (1, 2, 3):
+        for combo in itertools.permutations(names, n):
+            if ctx.tier == 'quick' and n == 3 and rng.random() < 0.7:
+                continue
+            want = {k: bool((i + len(combo) + len(k)) % 2) if k != 'SKIP' else (i + n) % 2 == 0 for i, k in enumerate(combo)}
+            text = rng.choice([',', ', ', ' , ']).join(('+' if want[k] else '-') + k for k in combo)
+            ctx.evaluations += 1
+            nopt += 1
+            try:
+                got = doctest_example.DoctestConfig()._populate_from_cli(dict(NS, options=text))['default_runtime_state']
+            except Exception as e:      # noqa
+                got = 'raised %s' % type(e).__name__
+            if got != want:
+                ctx.violation('cli-defaults', {'what': '--options=%r gives the default options %r, the list says %r' % (text, got, want), 'options_text': text,
+                                               'expected_default_runtime_state': want, 'theorem_or_correspondence': 'C04_defaults_as_leading_block: the defaults of a run are the options given'}, True)
+                break
+            if n <= 2:
+                events = [('stmt', [], 10), ('stmt', [('SKIP', False, None)], 11), ('stmt', [], 12)]
+                start = (bool(want.get('SKIP', False)), ())
+                cases.append(dict(doc=render(events, SHAPES), expect=spec_trace(events, start), events=events, default=dict(got)))
+    ctx.count('cli_option_lists', nopt)
     # "a skipped statement has no effect at all": also not on what a later want is compared with.  Output printed before a
     # skipped statement (with or without a want of its own) still belongs to the next executed want
     for skipdir in ('+SKIP', '+REQUIRES(%s)' % UA, '+REQUIRES(%s)' % UB):
